@@ -18,6 +18,29 @@ async fn main() -> datafusion::error::Result<()> {
     let ctx = SessionContext::new_with_config_rt(cfg, rt);
     ctx.register_table("a", Arc::new(MemTable::try_new(schema.clone(), vec![vec![mk(vec![0], vec![-14])], vec![mk(vec![1], vec![0])]])?))?;
     ctx.register_table("b", Arc::new(MemTable::try_new(schema.clone(), vec![vec![mk(vec![100, 101, 102], vec![-207, -300, -400])]])?))?;
+    if sql == "reexec-parquet" {
+        // Same defect, other symptom: the left child is a Parquet scan whose partitions share one work
+        // queue of files; the second execution finds the queue drained, the fallback then fails with
+        // "Internal error: Left side produced no data to spill" instead of ResourcesExhausted / the result.
+        let dir = std::env::temp_dir().join(format!("nlj_repro_{}", std::process::id()));
+        std::fs::create_dir_all(&dir).unwrap();
+        let file = dir.join("a.parquet");
+        {
+            let batch = mk(vec![0, 1, 2], vec![-14, 0, 5]);
+            let f = std::fs::File::create(&file).unwrap();
+            let mut w = datafusion::parquet::arrow::ArrowWriter::try_new(f, batch.schema(), None).unwrap();
+            w.write(&batch).unwrap();
+            w.close().unwrap();
+        }
+        ctx.register_parquet("pa", file.to_str().unwrap(), ParquetReadOptions::default()).await?;
+        ctx.register_table("pb", Arc::new(MemTable::try_new(schema.clone(), vec![vec![mk(vec![100, 101, 102], vec![-207, 3, 400])]])?))?;
+        let df = ctx.sql("SELECT pa.id, pb.id FROM pa JOIN pb ON pa.v < pb.v").await?;
+        println!("{}", datafusion::physical_plan::displayable(df.clone().create_physical_plan().await?.as_ref()).indent(true));
+        let out = df.collect().await;
+        println!("result: {:?}", out.map(|b| b.iter().map(|x| x.num_rows()).sum::<usize>()));
+        let _ = std::fs::remove_dir_all(&dir);
+        return Ok(());
+    }
     if sql == "reexec" {
         // Third finding: the fallback executes the left child a second time. A left subtree that holds a
         // RepartitionExec (whose output partitions can be executed once) then panics instead of failing
